@@ -206,6 +206,11 @@ def witness_cases():
         # F03d: the same relation live in two datasets + a page boundary between its two keys
         {"datasets": DSN, "ops": [B("a", ent("e1", {"r1": ["e4", "e2"]})), B("b", ent("e1", {"r1": "e2"})), KEYS,
                                   q(["e1"], limits=[1]), q(["e1"], limits=[2]), q(["e1"])]},
+        # F03a, multi-dataset shape (lead from the C07 work): tombstones of one relation interleaved across two datasets;
+        # the mid-loop spill-over branch keeps a stale entry: the relation is dead in both datasets and still returned
+        {"datasets": DSN, "ops": [B("a", ent("e1", {"r2": "e4"})), B("b", ent("e1", {"r2": "e4"})), B("a", ent("e1", {}, True)),
+                                  B("b", ent("e1", {})), B("a", ent("e2", {"r1": "e4"})), KEYS,
+                                  q(["e4"], inverse=True), q(["e1"]), q(["e4"], inverse=True, limits=[1])]},
         # delete / un-delete inside a batch and across batches, several datasets with different delete states
         {"datasets": DSN, "ops": [B("a", ent("e1", {"r1": "e2"}), ent("e1", {"r1": "e2"}, True), ent("e1", {"r1": ["e2", "e3"]})),
                                   B("b", ent("e1", {"r1": "e2"}, True)), B("b", ent("e1", {"r2": "e3"})), B("a", ent("e1", {}, True)), KEYS,
@@ -339,8 +344,8 @@ def gen(rng, tier):
         return [gen_case(rng, rng.range(2, 7), 40) for _ in range(120)]
     if tier == "search":
         return [gen_case(rng, rng.range(2, 8), 40) for _ in range(150)]
-    cases = [gen_case(rng, rng.range(2, 6), 0, full=True) for _ in range(40)]
-    return cases + [gen_case(rng, rng.range(2, 10), 60) for _ in range(600)]
+    cases = [gen_case(rng, rng.range(2, 6), 0, full=True) for _ in range(60)]
+    return cases + [gen_case(rng, rng.range(2, 10), 60) for _ in range(1200)]
 
 
 def run(binp, cases):
@@ -388,6 +393,30 @@ def attribute(c, o):
         if op["op"] == "related" and any(d not in c["datasets"] for d in op.get("datasets", [])):
             return "F03b"
     return "F03a"
+
+
+def _still_unexplained(binp, case):
+    o = run(binp, [case])[0]
+    ev = vlib.coq_evaluate_cases(ID + "s", CHECK_MODULE, CASE_TYPE, [_term(case, o)], fn="unexplained_all", shard=SHARD)
+    return bool(ev[0]), o
+
+
+def shrink(binp, c, o):
+    """smallest sub-case that is still an unexplained spec failure: one query at a time, then drop trailing writes"""
+    try:
+        writes = [op for op in c["ops"] if op["op"] != "related"]
+        for qop in [op for op in c["ops"] if op["op"] == "related"]:
+            cand = {"datasets": c["datasets"], "ops": writes + [qop]}
+            if qop.get("at"):
+                continue        # op indices of 'at' refer to the original case
+            bad, o2 = _still_unexplained(binp, cand)
+            if bad:
+                cand2 = {"datasets": c["datasets"], "ops": [op for op in writes if op["op"] != "refkeys"] + [qop]}
+                bad2, o3 = _still_unexplained(binp, cand2)
+                return (cand2, o3) if bad2 else (cand, o2)
+    except Exception:
+        pass
+    return c, o
 
 
 def size(c):
